@@ -628,10 +628,13 @@ def r4_merges(repo, report):
         for an in (False, True):
             for bn in (False, True):
                 if r.valuation.get("isnone:A", an) == an and r.valuation.get("isnone:B", bn) == bn:
-                    tbl[(an, bn)] = vkey(r.exit[1])
+                    tbl.setdefault((an, bn), set()).add(vkey(r.exit[1]) if r.exit[0] == "return" else r.exit[0])
+    # every path of a case gives the case's answer (a path that also looks at the VALUE - `a or b` - answers differently
+    # for a count of 0, which is a count)
     want = {(True, True): ("B", "A", "None"), (True, False): ("B",), (False, True): ("A",), (False, False): ("A+B",)}
-    ok = all(tbl.get(k) in v or (k == (True, True) and tbl.get(k) in ("A", "B")) for k, v in want.items())
-    report.ob("C06.R4", "add_if_not_none", ok, facts={str(k): v for k, v in tbl.items()}, expected="None,None -> None; one None -> the other; else a + b (symmetric)", loc=repo.loc(fn), cases=4)
+    ok = all(tbl.get(k) and tbl[k] <= set(v) for k, v in want.items())
+    report.ob("C06.R4", "add_if_not_none", ok, facts={str(k): sorted(v) for k, v in tbl.items()}, expected="None,None -> None; one None -> the other; else a + b (symmetric), whatever the values are", loc=repo.loc(fn), cases=len(rows),
+              why="" if ok else "; ".join(f"a {'is' if k[0] else 'is not'} None, b {'is' if k[1] else 'is not'} None -> {sorted(v)}" for k, v in tbl.items() if not v <= set(want[k]))[:240] + ": a tally of 0 on one side turns the sum into None (the report then shows no value)")
 
 
 # ---------------------------------------------------------------------------
